@@ -352,3 +352,49 @@ Proof.
       * apply table_rows; [lia|exact Hi].
       * apply combine_words; try lia. apply node_at_length.
 Qed.
+
+(** * (c) the common-prefix shortcut = [fixed] pure-descent steps *)
+
+(** at the level of numbers: if the index is [val_msb q0 * 2^d + low] with
+    [low >= |q0|] (so that the at most |q0| decrements of the left turns never
+    borrow from the copied bits), the pure descent walks exactly along q0 *)
+Lemma node_at_fixed : forall (q0 : list bool) (c : nat) (low : Z),
+  Z.of_nat (length q0) <= low < 2 ^ (Z.of_nat c + 1) ->
+  val_msb q0 * 2 ^ (Z.of_nat c + 1) + low < 2 ^ (Z.of_nat (c + length q0) + 1) - 1 ->
+  node_at (c + length q0) (val_msb q0 * 2 ^ (Z.of_nat c + 1) + low)
+    = q0 ++ node_at c (low - (Z.of_nat (length q0) - count_true q0)) /\
+  0 <= low - (Z.of_nat (length q0) - count_true q0) < 2 ^ (Z.of_nat c + 1) - 1.
+Proof.
+  induction q0 as [|b q IH]; intros c low Hlow Hidx.
+  - cbn [length] in *. rewrite val_msb_nil in *. rewrite Nat.add_0_r in *.
+    cbn [count_true app]. change (Z.of_nat 0) with 0 in *.
+    replace (low - (0 - 0)) with low by lia. replace (0 * 2 ^ (Z.of_nat c + 1) + low) with low in * by lia.
+    split; [reflexivity|lia].
+  - cbn [length] in *. rewrite val_msb_cons in *.
+    replace (c + S (length q))%nat with (S (c + length q)) in * by lia.
+    specialize (IH c).
+    set (d := Z.of_nat c + 1) in *.
+    pose proof (val_msb_bound q) as HV.
+    assert (Hd : 0 < 2 ^ d) by (apply pow2_pos; lia).
+    assert (HP : 2 ^ Z.of_nat (S (c + length q)) = 2 ^ Z.of_nat (length q) * 2 ^ d).
+    { unfold d. rewrite <- Z.pow_add_r by lia. f_equal. lia. }
+    set (L := 2 ^ Z.of_nat (length q)) in *.
+    set (idx := (Z.b2z b * L + val_msb q) * 2 ^ d + low) in *.
+    assert (Hnn : 0 <= (Z.b2z b * L + val_msb q) * 2 ^ d)
+      by (apply Z.mul_nonneg_nonneg; [destruct b; cbn [Z.b2z]; lia|lia]).
+    destruct (node_at_step (c + length q) idx) as [E R]; [split; [unfold idx; lia|exact Hidx]|].
+    cbn zeta in E, R. rewrite HP in E, R.
+    replace (Z.of_nat (c + length q) + 1) with (Z.of_nat (S (c + length q))) in R by lia.
+    rewrite HP in R.
+    destruct b; cbn [Z.b2z count_true] in *.
+    + destruct (Z.leb_spec (L * 2 ^ d) idx) as [_|Hc]; [|unfold idx in Hc; nia].
+      replace (idx - L * 2 ^ d) with (val_msb q * 2 ^ d + low) in * by (unfold idx; lia).
+      destruct (IH low ltac:(lia)) as [IH1 IH2].
+      { replace (Z.of_nat (c + length q) + 1) with (Z.of_nat (S (c + length q))) by lia. rewrite HP. lia. }
+      rewrite E, IH1. split; [cbn [app]; do 3 f_equal; lia|lia].
+    + destruct (Z.leb_spec (L * 2 ^ d) idx) as [Hc|_]; [unfold idx in Hc; nia|].
+      replace (idx - 1) with (val_msb q * 2 ^ d + (low - 1)) in * by (unfold idx; lia).
+      destruct (IH (low - 1) ltac:(lia)) as [IH1 IH2].
+      { replace (Z.of_nat (c + length q) + 1) with (Z.of_nat (S (c + length q))) by lia. rewrite HP. lia. }
+      rewrite E, IH1. split; [cbn [app]; do 3 f_equal; lia|lia].
+Qed.
